@@ -2,6 +2,7 @@ mod alloc;
 mod c01;
 mod c04;
 mod c11;
+mod c20;
 mod faults;
 mod io;
 mod choices;
